@@ -232,3 +232,138 @@ def _first_diff(a: list, b: list) -> str:
         if x != y:
             return f"op#{i}:{(x or ('missing',))[0]}/{(y or ('missing',))[0]}"
     return "?"
+
+
+# ---------------------------------------------------------------------------
+# the hand-written pair in httpcore/_backends/mock.py (not generated, so not covered by the pairing)
+# ---------------------------------------------------------------------------
+
+MOCK_SCRIPTS: tuple[list[bytes], ...] = (
+    [b"HTTP/1.1 200 OK\r\n", b"Content-Length: 2\r\n", b"Connection: close\r\n\r\n", b"ok"],
+    [b"HTTP/1.1 200 OK\r\nContent-Length: 2\r\n\r\nok", b"HTTP/1.1 204 No Content\r\n\r\n"],
+    [b"HTTP/1.1 200 OK\r\n", b"Transfer-Encoding: chunked\r\n\r\n", b"2\r\nok\r\n", b"0\r\n\r\n"],
+    [b"HTTP/1.1 500 Oops\r\nContent-Length: 5\r\n\r\nshort"],
+)
+
+
+def _mock_run(is_async: bool, script: list[bytes], uds: bool, tls: bool, nreq: int, early_close: bool) -> list[typing.Any]:
+    vrt.new_runtime(clock=10)
+    kw: dict[str, typing.Any] = {"uds": "/run/mock.sock"} if uds else {}
+    backend = (httpcore.AsyncMockBackend if is_async else httpcore.MockBackend)(list(script))
+    pool = (httpcore.AsyncConnectionPool if is_async else httpcore.ConnectionPool)(network_backend=backend, **kw)
+    api = scen.Api(is_async)
+    outs: list[typing.Any] = []
+    url = ("https" if tls else "http") + "://example.com/"
+    for i in range(nreq):
+        o = api.open(pool, "GET", url)
+        outs.append(o.kind())
+        if o.ok:
+            r = o.value
+            outs.append((r.status, r.headers))
+            if not (early_close and i == 0):
+                rd = api.read(r)
+                outs.append((rd.kind(), rd.value if rd.ok else None))
+            outs.append(api.close_response(r).kind())
+        outs.append(_norm(repr(pool)))
+        outs.append([_norm(c.info()) for c in pool.connections])
+    outs.append(api.close(pool).kind())
+    return outs
+
+
+@harness(
+    "C18", "mock_backends",
+    quick=[{}],
+    example=dict(sv=0, uds=True, tls=False, n=3, ec=False),
+    require=("compared", "second-connection"),
+    timeout={"quick": 200, "thorough": 300},
+    symbolic="the scripted byte chunks (4 scripts: Connection: close / two responses / chunked / short body), TCP or Unix socket, http or https, 1-3 consecutive requests, whether the first response is closed unread",
+    bounds="httpcore.MockBackend against httpcore.AsyncMockBackend under the real pools, <= 3 requests",
+    outside="the http2 flag of the mock back ends",
+    stubs=("model anyio for the async pool's primitives",),
+)
+def mock_backends(sv: int, uds: bool, tls: bool, n: int, ec: bool) -> None:
+    """
+    pre: 0 <= sv <= 3 and 1 <= n <= 3
+    post: _
+    """
+    script = pick(sv, MOCK_SCRIPTS)
+    u, t, k, e = bool(uds), bool(tls), ladder(n, 1, 3), bool(ec)
+    with concrete(u, t, k, e):
+        rs = _mock_run(False, script, u, t, k, e)
+        ra = _mock_run(True, script, u, t, k, e)
+        P.cover("compared")
+        if k >= 2 and script is MOCK_SCRIPTS[0]:
+            P.cover("second-connection")
+        P.note(sync=rs, async_=ra)
+        P.check(rs == ra, "same-outcomes", lambda: f"twins:mock-backends:{'uds' if u else 'tcp'}:{_first_diff([(x,) for x in map(repr, rs)], [(x,) for x in map(repr, ra)])}")
+
+
+# ---------------------------------------------------------------------------
+# hand-built Request objects given to handle_request / handle_async_request
+# ---------------------------------------------------------------------------
+
+HANDBUILT: tuple[tuple[bytes, list[tuple[bytes, bytes]], typing.Any], ...] = (
+    (b"GET", [(b"Host", b"example.com")], None),
+    (b"GET", [], None),  # no Host header at all
+    (b"POST", [(b"Host", b"example.com")], b"body-without-framing-header"),
+    (b"POST", [(b"Host", b"example.com"), (b"Content-Length", b"3")], b"abc"),
+    (b"GET", [(b"Host", b"example.com"), (b"Bad Name", b"v")], None),
+    (b"GET", [(b"Host", b"example.com"), (b"X-V", b"line\r\nbreak")], None),
+    (b"BAD METHOD", [(b"Host", b"example.com")], None),
+)
+
+
+def _handbuilt_run(is_async: bool, ct: str, idx: int) -> tuple:
+    su = Setup(ct, is_async, max_connections=2)
+    method, headers, content = HANDBUILT[idx]
+    outs: list[typing.Any] = []
+    for m, h, c in ((method, headers, content), (b"GET", [(b"Host", b"example.com")], None)):
+        req = httpcore.Request(m, su.url("hb"), headers=list(h), content=c, extensions={"timeout": {"pool": 0, "read": 5}})
+        o = su.api.handle(su.pool, req)
+        outs.append(o.kind())
+        if o.ok:
+            outs.append(o.value.status)
+            outs.append(su.api.read(o.value).kind())
+            outs.append(su.api.close_response(o.value).kind())
+        outs.append(_states(su))
+    return _trace(su), outs, _states(su)
+
+
+@harness(
+    "C18", "handbuilt_requests",
+    quick=[{"ct": ct} for ct in ("h11", "h2", "h2prior", "tunnel")],
+    example=dict(i=1),
+    require=("compared",),
+    timeout={"quick": 200, "thorough": 300},
+    symbolic="which hand-built httpcore.Request is passed to the pool's handle_request / handle_async_request (7: complete, without Host, body without framing header, with Content-Length, illegal header name, illegal header value, illegal method), followed by an ordinary request",
+    bounds="7 requests x 4 connection types (HTTP/1.1, HTTP/2 by ALPN and by prior knowledge, tunnel)",
+    outside="other malformed requests",
+    stubs=("as C18.product",),
+    also=("C15",),
+)
+def handbuilt_requests(i: int) -> None:
+    """
+    pre: 0 <= i <= 6
+    post: _
+    """
+    k = ladder(i, 0, 6)
+    with concrete(k):
+        ct = shard("ct", "h11")
+        rs = _handbuilt_run(False, ct, k)
+        ra = _handbuilt_run(True, ct, k)
+        P.cover("compared")
+        P.note(ct=ct, request=k, sync_outcomes=rs[1], async_outcomes=ra[1])
+        sig = f"twins:handbuilt:{ct}:{k}"
+        P.check(rs[1] == ra[1], "same-outcomes", lambda: f"{sig}:outcomes", prop="C18")
+        P.check(rs[0] == ra[0], "same-bytes-and-operations-on-the-wire", lambda: f"{sig}:ledger:{_first_diff(rs[0], ra[0])}", prop="C18")
+        # C15: an invalid request from the caller gives LocalProtocolError - never a bare IndexError/KeyError/...
+        what = {0: "complete", 1: "no-host", 2: "body-without-framing", 3: "with-content-length", 4: "illegal-header-name",
+                5: "illegal-header-value", 6: "illegal-method"}[k]
+        fam = "h2" if ct in ("h2", "h2prior") else ct
+        for fl, r in (("sync", rs), ("async", ra)):
+            first = r[1][0]
+            P.check(first == "ok" or first.startswith("httpcore."), "documented-exception-type",
+                    lambda: f"exc:handbuilt:{fam}:{what}:{first}", prop="C15")
+            if k in (1, 4, 5, 6) and first != "ok":
+                P.check(first == "httpcore.LocalProtocolError", "class-matches-the-cause(invalid request)",
+                        lambda: f"exc:handbuilt:{fam}:{what}:wrong-class:{first}", prop="C15")
